@@ -18,3 +18,10 @@ package socket
 //@   modifies heap
 //@   ensures complete: result.1 == nil ==> len(result.0) == len(command)
 //@ end
+
+// C02 — a command is reported as sent without error only if the peer answered
+// something: an empty success answer of HAProxy is a line break, never nothing
+//@ func (*sock).send
+//@   props C02
+//@   lemma answered: result.1 == nil ==> response != ""
+//@ end
